@@ -23,6 +23,7 @@ pub mod c14;
 pub mod c15;
 pub mod c15b;
 pub mod c16;
+pub mod c17;
 pub mod c18;
 pub mod c19;
 pub mod crash;
@@ -35,7 +36,7 @@ pub fn check(prop: &str, tier: Tier) -> i32 {
 		"C03" => crash::check("C03", tier),
 		"C04" => c04::check(tier),
 		"C05" => sched::check("C05", tier),
-		"C17" => sched::check("C17", tier),
+		"C17" => c17::check(tier),
 		"C06" => c06::check(tier),
 		"C07" => c07::check(tier),
 		"C08" => c08::check(tier),
@@ -75,8 +76,9 @@ pub fn replay(prop: &str, file: &str) -> i32 {
 	match prop {
 		"C06" | "C01" | "C07" | "C11" if r["engine"] == "world" => replay_world(prop, &r),
 		"C02" | "C03" | "C07" | "C07c" | "C11" if r["engine"] == "crash" => crash::replay(if prop == "C07c" { "C07" } else { prop }, &r),
-		"C05" | "C17" | "C04" | "C01" | "C02" | "C11" | "C04s" | "C01s" | "C02s" if r["engine"] == "schedx" => sched::replay(prop.trim_end_matches('s'), &r),
+		"C05" | "C17" | "C04" | "C01" | "C02" | "C11" | "C06" | "C04s" | "C01s" | "C02s" if r["engine"] == "schedx" => sched::replay(prop.trim_end_matches('s'), &r),
 		"C07" if r["engine"] == "c07-shrink" || r["engine"] == "c07-oversize" => c07::replay(&r),
+		"C17" if r["engine"] == "c17-seq" => c17::replay(&r),
 		"C04" => c04::replay(&r),
 		"C08" => c08::replay(&r),
 		"C09" => c09::replay(&r),
